@@ -1954,12 +1954,15 @@ func RunC10(c *core.Ctx) {
 	c.Rep.Rule = fzRule
 	if os.Getenv("C10_CHILD") == "" {
 		fzSupervise(c)
+		RunOddKeys(c) // well-formed keys of unsupported sizes/curves at DI (both roles); handlers that serve a subset of the protocols
 		return
 	}
 	fzChild(c)
 }
 
-const fzRule = "server side: for each protocol position (10,12 | 20,22 | 30,32 | 60,62,64,66,68 first and second,70, and a client error message 255) and key type / " +
+const fzRule = "keys and deployments: fdo.DI against a manufacturer key of an odd size/curve (RSA-1024/4096, P-224, P-521, Ed25519) for each device key type; DI.AppStart with a CSR " +
+	"for such a key; http.Handler serving only TO2 / only TO0+TO1 / only DI / nothing against every client message type and error messages naming every protocol. " +
+	"server side: for each protocol position (10,12 | 20,22 | 30,32 | 60,62,64,66,68 first and second,70, and a client error message 255) and key type / " +
 	"key exchange / cipher configuration, a hand-built client (internal/raw) runs the honest messages up to the position in a fresh session against the real " +
 	"http.Handler + responders + SQLite, then sends ONE altered message: (s) a systematic sweep over the nodes of the honest message, shallow nodes first (each node replaced by null; integers by 0 and 2^64-1; strings, arrays " +
 	"and maps emptied; a null element appended to arrays and maps; for 32/64 re-signed; for tunnelled messages on the plaintext and on the encrypted envelope); (a) random structure-aware mutants of the honest body (an independent CBOR tree: integer " +
